@@ -232,6 +232,25 @@ impl ReservedEntities {
     }
 }
 
+#[cfg(feature = "verif-hooks")]
+impl Entities {
+    pub(crate) fn verif_locs(&self) -> &SlotMap<EntityLocation> {
+        &self.locs
+    }
+
+    pub(crate) fn verif_locs_mut(&mut self) -> &mut SlotMap<EntityLocation> {
+        &mut self.locs
+    }
+}
+
+#[cfg(feature = "verif-hooks")]
+impl ReservedEntities {
+    /// `(cursor index, count)`
+    pub(crate) fn verif_state(&self) -> (u32, u32) {
+        (self.iter.verif_index(), self.count)
+    }
+}
+
 #[cfg(test)]
 mod tests {
     use crate::entity::Entities;
